@@ -25,6 +25,7 @@ rev knownvalue-negative 2777250 C15
 rev decorated-plain-signature deb7577 C09
 rev annotated-redacted-sealed-message e60f76b C10
 rev truncated-share 077ca57 C11
+rev junk-sealed-message 5ab789d C10
 # the two recipient fixes touch the same lines; the later one is reverted alone, then both together
 rev stale-recipient 8804494 C10
 git -C /repo diff 3a97a18~1 8804494 -- src/extension/recipient.rs > /tmp/both-recipient.diff
